@@ -87,3 +87,4 @@ pub fn k4_ed25519_identity_nopoint<S: Src>(s: &mut S) {
 pub fn k4_ed25519_identity_point<S: Src>(s: &mut S) {
     ed25519_identity(s, 2)
 }
+
